@@ -253,7 +253,23 @@ type c07Hist struct {
 	Steps  int     `json:"steps"`
 }
 
-var c07Reasons = map[int]string{1: "a", 2: "b", 3: "too many steps"}
+// (the empty string is a reason like any other)
+var c07Reasons = map[int]string{1: "a", 2: "", 3: "too many steps"}
+
+// c07Cancelled reports whether err is the cancellation error carrying exactly this reason
+func c07Cancelled(err error, reason string) bool {
+	const pre = "Starlark computation cancelled: "
+	text := err.Error()
+	i := strings.Index(text, pre)
+	if i < 0 {
+		return false
+	}
+	rest := text[i+len(pre):]
+	if j := strings.IndexByte(rest, '\n'); j >= 0 {
+		rest = rest[:j]
+	}
+	return rest == reason
+}
 
 // programs with exactly 3 interpreter steps per execution
 const c07Plain = "def run(x):\n    return -x\n"      // LOCAL, UMINUS, RETURN
@@ -371,7 +387,7 @@ func c07Replay(h *c07Hist, limit uint64, variant string) (problems []string) {
 				msg := "Starlark computation cancelled: " + c07Reasons[want[1]]
 				if err == nil {
 					problems = append(problems, fmt.Sprintf("execution %d: model is cancelled (%s) after %d instructions, real completed", ei, c07Reasons[want[1]], want[0]))
-				} else if !strings.Contains(err.Error(), msg) {
+				} else if !c07Cancelled(err, c07Reasons[want[1]]) {
 					problems = append(problems, fmt.Sprintf("execution %d: want error %q, got %q", ei, msg, err.Error()))
 				}
 				if executed != want[0] {
